@@ -239,6 +239,30 @@ def released_on_all_normal_paths(fi, resource, ctxvars, cg=None, acq_loop_iter=N
     return ok, path, len(rel)
 
 
+def raising_before_release(fi, resource, ctxvars, cg):
+    """Statements of `fi` that may raise (call-graph summary) and can run before any release of `resource`: if one of them
+    raises, the function is left without releasing.  -> [statement text]"""
+    pred = cg.stmt_may_raise(fi)
+    g = CFG(fi.node, pred)
+    rel = []
+    for n in g.nodes:
+        pr = node_probe(n) if n.stmt is not None else None
+        if pr is not None and any(r == resource and k == "rel" for r, k, _ in classify_stmt(pr, ctxvars)):
+            rel.append(n)
+    if not rel:
+        return ["<no release statement>"]
+    out = []
+    for n in g.nodes:
+        if n in rel or n.stmt is None or n.kind not in ("stmt", "test", "for", "with_enter"):
+            continue
+        pr = node_probe(n)
+        if pr is None or not pred(pr if isinstance(pr, ast.stmt) else ast.Expr(value=pr)):
+            continue
+        if g.path_exists(g.entry, n, avoid=rel):
+            out.append(n.text()[:80])
+    return out
+
+
 def journal_findings(repo, fi, cg, ctxvars):
     """Journaled rollback (`for x in reversed(J): release(x)`): every `J.append(...)` must come after the acquire it records,
     otherwise a failing acquire is rolled back although it never completed (over-release).
